@@ -405,6 +405,15 @@ fn c03_bookkeeping_matches_the_rules() { c01_c03_walk(false, true) }
 /// everything the key covers -- the board that reached the same position by play
 #[test]
 fn c07_fen_loading_matches_the_string() {
+    // the built-in start position is the position of the standard start FEN (it is what `position startpos` loads)
+    {
+        let start = "rnbqkbnr/pppppppp/8/8/8/8/PPPPPPPP/RNBQKBNR w KQkq - 0 1";
+        let built = crate::board::boardbuilder::BoardBuilder::construct_starting_board().build();
+        c03_compare(&built, &refrules::from_fen(start), "C07: the built-in start position");
+        let loaded = Board::from_fen(start);
+        assert!(built.zkey == loaded.zkey && built.zkey == ZKey::from(&built), "C07: the built-in start position and the start FEN have different keys");
+        assert!(built.history.len() == 1 && built.position_history.is_empty(), "C07: the built-in start position must start with an empty game record");
+    }
     let mut rng = Rng(seed());
     let fens: Vec<&str> = FENS.iter().chain(FENS_C01.iter()).copied().collect();
     for fen in fens.iter() {
